@@ -736,6 +736,92 @@ Proof. destruct (replace_ok subst s) as [r ->]. discriminate. Qed.
 Lemma subst_key_no_panic t x : x <> BSL -> subst_key (t ++ [x; RB]) <> Panic.
 Proof. intro H. destruct (subst_key_ok t x H) as [r ->]. discriminate. Qed.
 
+
+(* ------------------------------------------------------------------------------------------ *)
+(* FastCGI: what the stream reader returns for well-formed records is their stdout contents    *)
+(* ------------------------------------------------------------------------------------------ *)
+Lemma u16_be16 n : u16 (n / 256) (n mod 256) = n.
+Proof. unfold u16. rewrite N.mul_comm. symmetry. apply N.div_mod'. Qed.
+
+Lemma record_read_enc r tail : frec_wf r = true ->
+  record_read (enc_rec r ++ tail) = Ok (RRec (r_type r) (r_content r) tail).
+Proof.
+  intro Hwf. unfold frec_wf in Hwf.
+  apply andb_true_iff in Hwf as [Hwf Hpad]. apply andb_true_iff in Hwf as [Hwf Hlen].
+  apply andb_true_iff in Hwf as [_ Ht]. apply negb_true_iff in Ht.
+  destruct r as [t c pad]. cbn [r_type r_content r_pad] in *.
+  unfold enc_rec, be16. cbn [r_type r_content r_pad app].
+  set (l := c ++ repeat 0 pad). 
+  match goal with |- record_read ?x = _ => set (s := x) end.
+  assert (E0 : (length s =? 0)%nat = false) by reflexivity.
+  assert (E8 : (length s <? 8)%nat = false) by (apply Nat.ltb_ge; unfold s; simpl; lia).
+  unfold record_read. rewrite E0, E8. unfold s.
+  cbn [length Nat.leb idx nth_error rbind slice_from skipn].
+  change (negb (1 =? 1)) with false. cbv iota. rewrite Ht.
+  rewrite u16_be16. unfold nlen. rewrite !Nat2N.id.
+  assert (Hl : length l = (length c + pad)%nat) by (unfold l; rewrite app_length, repeat_length; lia).
+  destruct (length c + pad =? 0)%nat eqn:H0.
+  - apply Nat.eqb_eq in H0. assert (c = []) by (destruct c; [reflexivity|simpl in H0; lia]).
+    assert (pad = 0%nat) by lia. subst c pad. reflexivity.
+  - apply Nat.eqb_neq in H0.
+    assert (Hb : length (l ++ tail) = (length c + pad + length tail)%nat) by (rewrite app_length; lia).
+    rewrite Hb.
+    replace (length c + pad + length tail =? 0)%nat with false by (symmetry; apply Nat.eqb_neq; lia).
+    replace (length c + pad + length tail <? length c + pad)%nat with false by (symmetry; apply Nat.ltb_ge; lia).
+    rewrite slice_ok by lia. cbn [rbind].
+    rewrite slice_from_ok by lia. cbn [rbind].
+    rewrite Nat.sub_0_r. cbn [skipn].
+    rewrite <- Hl at 1. rewrite firstn_prefix.
+    rewrite slice_ok; [|lia|lia]. cbn [rbind skipn]. rewrite Nat.sub_0_r.
+    unfold l at 1. rewrite firstn_prefix.
+    rewrite <- Hl. rewrite skipn_app, skipn_all, Nat.sub_diag. reflexivity.
+Qed.
+
+Lemma stream_read_recs : forall rs fuel tail d e,
+  forallb frec_wf rs = true -> (length rs < fuel)%nat ->
+  stream_read (fuel - length rs) tail = Ok (d, e) ->
+  stream_read fuel (flat_map enc_rec rs ++ tail) = Ok (stdout_of rs ++ d, e).
+Proof.
+  induction rs as [|r rs IH]; intros fuel tail d e Hwf Hf Ht.
+  - simpl in *. now rewrite Nat.sub_0_r in Ht.
+  - simpl in Hwf. apply andb_true_iff in Hwf as [Hr Hwf].
+    destruct fuel as [|f]; [simpl in Hf; lia|].
+    cbn [flat_map]. rewrite <- app_assoc. cbn [stream_read].
+    rewrite (record_read_enc r _ Hr). cbn [rbind].
+    rewrite (IH f tail d e Hwf); [|simpl in Hf; lia|simpl in Ht; exact Ht].
+    cbn [rbind fst snd]. unfold stdout_of. cbn [flat_map].
+    destruct (r_type r =? 7); [reflexivity|]. now rewrite app_assoc.
+Qed.
+
+Lemma stream_read_end k : stream_read (S k) end_request = Ok ([], 1).
+Proof. reflexivity. Qed.
+Lemma stream_read_nil k : stream_read (S k) [] = Ok ([], 1).
+Proof. reflexivity. Qed.
+
+Lemma enc_rec_length r : (8 <= length (enc_rec r))%nat.
+Proof. unfold enc_rec, be16. rewrite !app_length. simpl. lia. Qed.
+
+Lemma flat_enc_length rs : (length rs <= length (flat_map enc_rec rs))%nat.
+Proof.
+  induction rs as [|r rs IH]; simpl; [lia|]. rewrite app_length. pose proof (enc_rec_length r). lia.
+Qed.
+
+(* the backend's stdout, exactly, followed by io.EOF — whether the stream ends with an
+   end-request record or with the connection being closed at a record boundary *)
+Lemma stream_decodes rs (closed : bool) : forallb frec_wf rs = true ->
+  stream_read_all (flat_map enc_rec rs ++ (if closed then [] else end_request)) = Ok (stdout_of rs, 1).
+Proof.
+  intro Hwf. unfold stream_read_all.
+  set (tail := if closed then [] else end_request).
+  set (fuel := S (length (flat_map enc_rec rs ++ tail))).
+  assert (Hf : (length rs < fuel)%nat).
+  { unfold fuel. rewrite app_length. pose proof (flat_enc_length rs). lia. }
+  rewrite (stream_read_recs rs fuel tail [] 1 Hwf Hf).
+  - now rewrite app_nil_r.
+  - destruct (fuel - length rs)%nat as [|k] eqn:E; [lia|].
+    unfold tail. destruct closed; reflexivity.
+Qed.
+
 (* ------------------------------------------------------------------------------------------ *)
 (* statements in the form used by C19_Props.v                                                  *)
 (* ------------------------------------------------------------------------------------------ *)
